@@ -777,6 +777,11 @@ def check_xstore(ctx: Check, tree: Tree) -> None:
     par_sites: dict[int, ast.AST] = {}
     conflicts: dict[int, tuple] = {}
     unpaired: dict[int, tuple] = {}
+    orphan_dels: dict[int, ast.AST] = {}
+    skipped_iterations: dict[tuple, tuple] = {}
+    iter_records: dict[tuple, list] = {}
+    all_del_roots: set[str] = set()
+    del_sites: dict[int, ast.AST] = {}
     readds: dict[int, tuple] = {}
     undecided: list[str] = []
     free_elements = _free_symbol_elements(fn, rd)
@@ -839,6 +844,15 @@ def check_xstore(ctx: Check, tree: Tree) -> None:
             return "unknown"
         return "mass" if "mass" in kinds else "other"
 
+    def _pos(n: ast.AST) -> tuple:
+        return (getattr(n, "lineno", 0), getattr(n, "col_offset", 0))  # the slice re-creates compound statements: positions identify them
+
+    mass_loops: dict[tuple, ast.Name] = {}  # position of a for loop over mass symbols -> a use of its variable as the key of a store
+    for op, _which, k_, n_ in all_ops:
+        if op == "store" and isinstance(k_, ast.Name):
+            lp = next((a for a in ancestors(n_) if isinstance(a, ast.For) and isinstance(a.target, ast.Name) and a.target.id == k_.id), None)
+            if lp is not None and key_kind(k_) == "mass":
+                mass_loops.setdefault(_pos(lp), k_)
     for p in paths:
         # replay per loop iteration: state is reset at each ("iter", loop) of an inner loop over symbols
         events = p.events
@@ -850,6 +864,14 @@ def check_xstore(ctx: Check, tree: Tree) -> None:
         fam_dels: dict[str, tuple] = {}  # domain text -> (del executed once per element of that domain, domain expression)
         since_iter: list[tuple] = []  # tests evaluated in the current iteration of the innermost loop
         unread: str | None = None
+        open_del: dict[str, ast.AST] = {}  # key name -> `del kin[key]` not (yet) matched by a parameter store of the same key
+
+        def forget(name: str) -> None:
+            # the key variable is re-bound / the iteration ends: a removal that found no parameter store stays unmatched
+            if name in open_del:
+                node_ = open_del.pop(name)
+                orphan_dels[id(node_)] = node_
+
         for ev in events:
             if ev[0] == "iter":
                 since_iter = []
@@ -859,6 +881,7 @@ def check_xstore(ctx: Check, tree: Tree) -> None:
                 # a new binding of the loop variable: forget keys named by it
                 names = {n.id for n in ast.walk(ev[1].target) if isinstance(n, ast.Name)}
                 for n in names:
+                    forget(n)
                     open_par.pop(n, None)
                     par_keys.pop(n, None)
                     kin_keys.pop(n, None)
@@ -872,6 +895,7 @@ def check_xstore(ctx: Check, tree: Tree) -> None:
             if isinstance(node, (ast.Assign, ast.AnnAssign)) and isinstance(node.targets[0] if isinstance(node, ast.Assign) else node.target, ast.Name):
                 # re-definition of a key variable
                 name = (node.targets[0] if isinstance(node, ast.Assign) else node.target).id
+                forget(name)
                 open_par.pop(name, None)
                 par_keys.pop(name, None)
                 kin_keys.pop(name, None)
@@ -885,6 +909,7 @@ def check_xstore(ctx: Check, tree: Tree) -> None:
                 if op == "store" and which == "par":
                     par_sites[id(node)] = node
                     par_keys[k] = node
+                    open_del.pop(k, None)
                     if k in kin_keys:
                         conflicts[id(node)] = (node, kin_keys[k])
                     if k not in deleted and _may_be_in(maps, key, rd):
@@ -896,6 +921,9 @@ def check_xstore(ctx: Check, tree: Tree) -> None:
                     open_par.pop(k, None)
                     kin_keys.pop(k, None)
                     deleted.add(k)
+                    del_sites[id(node)] = node
+                    if k not in par_keys:
+                        open_del[k] = node
                 elif op == "store" and which == "kin":
                     kin_keys[k] = node
                     deleted.discard(k)
@@ -914,7 +942,40 @@ def check_xstore(ctx: Check, tree: Tree) -> None:
                                 readds[id(node)] = (node, dnode, dom)
                     if k in par_keys:
                         conflicts[id(par_keys[k])] = (par_keys[k], node)
+        # every remaining mass symbol gets a definition: in a loop over mass symbols (the loop variable is the key of a
+        # parameter / kinematic-variable store somewhere in its body), an iteration that stores nothing under the loop
+        # variable must have been taken for a symbol that already IS a parameter (a test of the iteration mentions the
+        # domain of a family removed earlier on this path, or tests the symbol's membership in the parameters)
+        for pos, ev in enumerate(events):
+            if ev[0] != "iter" or _pos(ev[1]) not in mass_loops:
+                continue
+            loop = ev[1]
+            inside = []
+            for later in events[pos + 1:]:
+                node = later[1] if later[0] in {"stmt", "test"} else None
+                if node is None:
+                    continue
+                if not any(isinstance(a, ast.For) and _pos(a) == _pos(loop) for a in ancestors(node)):
+                    break
+                inside.append(later)
+            var = loop.target.id
+            stored = any(e[0] == "stmt" and any(op == "store" and isinstance(k_, ast.Name) and k_.id == var for op, _w, k_, _n in maps.ops(e[1])) for e in inside)
+            tests_here = [e for e in inside if e[0] == "test"]
+            # what the removals executed earlier on this path were conditioned on: the attribute paths of `self` (the
+            # configuration) mentioned by the tests / loop domains evaluated before them
+            seen_roots: set[str] = set()
+            del_roots: set[str] = set()
+            for e in events[:pos]:
+                if e[0] in {"test", "iter"}:
+                    src = e[1] if e[0] == "test" else e[1].iter
+                    seen_roots |= _roots(src, rd)
+                elif e[0] == "stmt" and any(op == "del" and which == "kin" for op, which, _k, _n in maps.ops(e[1])):
+                    del_roots |= seen_roots
+            all_del_roots.update(del_roots)
+            iter_records.setdefault(_pos(loop), []).append((loop, stored, tests_here, del_roots))
         if p.exit == "return":
+            for k in list(open_del):
+                forget(k)
             for k, node in open_par.items():
                 if unread is not None:
                     undecided.append(f"`{unparse(node)[:60]}`: {unread}, so whether the key is removed cannot be decided")
@@ -934,6 +995,45 @@ def check_xstore(ctx: Check, tree: Tree) -> None:
                           "create_expressions() defines every invariant-mass symbol of the topology, so the symbol would be both a parameter and a kinematic variable")
         else:
             ctx.ok("R-XSTORE", tree.loc(node), f"formulate: `{unparse(node)[:70]}` - the key cannot stay in {kin} on any of the {len(paths)} paths")
+    # the other direction: a symbol taken out of the kinematic variables must become a parameter on the same path
+    # (create_expressions() defined it and expressions still contain it: otherwise it is neither)
+    for nid, node in del_sites.items():
+        key = f"{FORMULATE}::{unparse(node)[:80]}::becomes-parameter"
+        if nid in orphan_dels:
+            ctx.violation("R-XSTORE", key, tree.loc(node), f"formulate: `{unparse(node)[:60]}` removes the symbol from {kin}, but no `{par}[<same key>] = ...` is executed for it on some path",
+                          "the mass symbol still occurs in the dynamics and in the definitions of the other kinematic variables: it is then neither a parameter nor a kinematic variable")
+        else:
+            ctx.ok("R-XSTORE", tree.loc(node), f"formulate: `{unparse(node)[:60]}` - on every path the removed key is stored into {par}")
+    # judge the iterations that store nothing: such an iteration is fine when a test that DECIDED it (the same test has the
+    # other outcome in an iteration that does store) mentions the domain of a family removed earlier / the membership of
+    # the symbol in the parameters - i.e. it is taken exactly for symbols that already are parameters
+    for pos_, records in iter_records.items():
+        storing = [r for r in records if r[1]]
+        for loop, stored, tests_here, _roots_on_this_path in records:
+            if stored:
+                continue
+            # (the removals of ANY path count: a path that skips because the symbol belongs to a removed family but on
+            # which the removal loop ran zero times is infeasible, and the walker does not know that)
+            del_roots = all_del_roots
+            deciding = [t for t in tests_here if any(any(_pos(t2[1]) == _pos(t[1]) and t2[2] != t[2] for t2 in r[2]) for r in storing)]
+            key_use = mass_loops[pos_]
+            if any(_roots(t[1], rd) & del_roots for t in deciding):
+                continue  # decided by the configuration that the earlier removals were conditioned on
+            no_domain = ast.Name(id="<no family>", ctx=ast.Load())  # only the membership test of the symbol in the parameters / an unread call count here
+            verdicts = [_guarded_against(tree, fn, deciding, no_domain, maps, key_use, rd)] if deciding else [False]
+            if any(v is True for v in verdicts):
+                continue
+            if any(v is None for v in verdicts):
+                undecided.append(f"whether the iteration of `for {loop.target.id} in {unparse(loop.iter)[:40]}` that stores nothing is only taken for symbols that are parameters depends on a call that is not read")
+                continue
+            skipped_iterations[pos_] = (loop, [unparse(e[1])[:50] + (" is true" if e[2] else " is false") for e in tests_here])
+    for loop, tests_txt in skipped_iterations.values():
+        ctx.violation("R-XSTORE", f"{FORMULATE}::for {loop.target.id} in {unparse(loop.iter)[:50]}::iteration-defines-nothing", tree.loc(loop),
+                      f"formulate: an iteration of `for {loop.target.id} in {unparse(loop.iter)[:40]}` (mass symbols that remain in an alignment angle) stores the symbol neither into {par} nor into {kin}"
+                      + (f" when {' and '.join(tests_txt)}" if tests_txt else ""),
+                      "the symbol stays in the definition of the angle: that kinematic variable then does not depend on four-momenta and parameters only")
+    if mass_loops and not skipped_iterations:
+        ctx.ok("R-XSTORE", tree.loc(fn.node), f"formulate: every iteration over remaining mass symbols ({len(mass_loops)} loop(s)) stores the symbol as parameter or kinematic variable, or is taken for a symbol that already is a parameter")
     kin_stores = {id(n): n for op, which, _, n in all_ops if op == "store" and which == "kin"}
     for node in kin_stores.values():
         key = f"{FORMULATE}::{unparse(node)[:80]}::re-add"
@@ -967,6 +1067,34 @@ def check_xstore(ctx: Check, tree: Tree) -> None:
             ctx.violation("R-XSTORE", f"{FORMULATE}::{unparse(b)[:80]}::both", tree.loc(b), f"formulate: `{unparse(a)[:60]}` and `{unparse(b)[:60]}` on one path")
     if undecided:
         raise AnalysisError("R-XSTORE cannot decide: " + " | ".join(sorted(set(undecided)))[:600])
+
+
+def _self_paths(e: ast.AST) -> set[str]:
+    """The attribute paths `self.a.b` (two levels or more, not a method that is called) an expression mentions."""
+    out: set[str] = set()
+    for a in ast.walk(e):
+        if isinstance(a, ast.Attribute) and not isinstance(getattr(a, "_parent", None), ast.Attribute):
+            root = a
+            while isinstance(root, ast.Attribute):
+                root = root.value
+            if isinstance(root, ast.Name) and root.id == "self" and unparse(a).count(".") >= 2 and not (isinstance(getattr(a, "_parent", None), ast.Call) and a._parent.func is a):  # type: ignore[attr-defined]
+                out.add(unparse(a))
+    return out
+
+
+def _roots(e: ast.AST, rd: RD) -> set[str]:
+    """What a condition / loop domain is about: the `self.a.b` paths it mentions, the locals it reads (by name) and the
+    `self.a.b` paths those locals were computed from (plain bindings only)."""
+    out = _self_paths(e)
+    for n in ast.walk(e):
+        if isinstance(n, ast.Name) and isinstance(n.ctx, ast.Load) and n.id != "self":
+            defs = rd.reaching(n)
+            if any(d.kind in {"assign", "for", "comp"} for d in defs):
+                out.add(f"<local {n.id}>")
+            for d in _plain_closure(rd, defs):
+                if d.value is not None:
+                    out |= _self_paths(d.value)
+    return out
 
 
 def _guarded_against(tree: Tree, fn: FuncInfo, tests: list[tuple], domain: ast.AST, maps: _Maps, key: ast.Name, rd: RD) -> bool | None:
